@@ -35,8 +35,20 @@ var c06Props = func() []c06Prop {
 			out = append(out, c06Prop{st.Name(), "Source.Content"}, c06Prop{st.Name(), "Source.ContentOnly"}) // a source with and without its media type
 		}
 	}
+	// an object that is nothing but its text (no id, no type), on its own and as a member of another object's tag list
+	for _, f := range []string{"Name", "Summary", "Content", "Source.Content", "Source.ContentOnly"} {
+		out = append(out, c06Prop{"Object", f + "@anon"}, c06Prop{"Object", f + "@anon-nested"})
+	}
 	return out
 }()
+
+// c06Anon splits the "@anon" / "@anon-nested" suffix off a property name.
+func c06Anon(field string) (string, string) {
+	if i := strings.Index(field, "@"); i >= 0 {
+		return field[:i], field[i+1:]
+	}
+	return field, ""
+}
 
 func c06TextClass(s string) string {
 	for i := 0; i+1 < len(s); i++ {
@@ -61,27 +73,41 @@ func c06TextClass(s string) string {
 func c06Build(p c06Prop, nl ap.NaturalLanguageValues) ap.Item {
 	ptr := reflect.New(vocab.StructType(p.GoType))
 	v := ptr.Elem()
-	v.FieldByName("ID").SetString("https://example.com/texts/1")
-	v.FieldByName("Type").SetString(string(vocab.DefaultType[p.GoType]))
-	if p.Field == "Source.Content" {
+	field, anon := c06Anon(p.Field)
+	if anon == "" {
+		v.FieldByName("ID").SetString("https://example.com/texts/1")
+		v.FieldByName("Type").SetString(string(vocab.DefaultType[p.GoType]))
+	}
+	if field == "Source.Content" {
 		v.FieldByName("Source").Set(reflect.ValueOf(ap.Source{MediaType: "text/markdown", Content: nl}))
-	} else if p.Field == "Source.ContentOnly" {
+	} else if field == "Source.ContentOnly" {
 		v.FieldByName("Source").Set(reflect.ValueOf(ap.Source{Content: nl}))
 	} else {
-		v.FieldByName(p.Field).Set(reflect.ValueOf(nl))
+		v.FieldByName(field).Set(reflect.ValueOf(nl))
+	}
+	if anon == "anon-nested" {
+		return &ap.Object{ID: "https://example.com/texts/1", Type: ap.NoteType, Tag: ap.ItemCollection{ap.IRI("https://example.com/tags/first"), ptr.Interface().(ap.Item)}}
 	}
 	return ptr.Interface().(ap.Item)
 }
 
 func c06Extract(p c06Prop, it ap.Item) (ap.NaturalLanguageValues, bool) {
+	field, anon := c06Anon(p.Field)
+	if anon == "anon-nested" {
+		outer, ok := it.(*ap.Object)
+		if !ok || outer == nil || len(outer.Tag) != 2 {
+			return nil, false
+		}
+		it = outer.Tag[1]
+	}
 	sv, ok := vocab.StructOf(it)
 	if !ok || sv.Type().Name() != p.GoType {
 		return nil, false
 	}
-	if p.Field == "Source.Content" || p.Field == "Source.ContentOnly" {
+	if field == "Source.Content" || field == "Source.ContentOnly" {
 		return sv.FieldByName("Source").Interface().(ap.Source).Content, true
 	}
-	return sv.FieldByName(p.Field).Interface().(ap.NaturalLanguageValues), true
+	return sv.FieldByName(field).Interface().(ap.NaturalLanguageValues), true
 }
 
 var c06Codecs = []struct {
